@@ -136,6 +136,134 @@ func (c *Ctx) equSplits(n *Node, M uint64) {
 	}
 }
 
+// equSubtrees: every inner operator node in turn is moved into an EQU whose
+// body is the node's text without parentheses; EQU names are substituted
+// textually, so `n equ 1+1` / `n*2` is 1+1*2. The expectation is derived from
+// the source text by the token evaluator (ref/expr.go).
+func (c *Ctx) equSubtrees(root *Node) {
+	var ops []*Node
+	root.Operands(&ops)
+	for _, nd := range ops[1:] {
+		if nd.Op == 0 {
+			continue
+		}
+		saved := *nd
+		inner := saved
+		inner.Signs, inner.Wraps = "", 0
+		body := inner.Render(false)
+		*nd = Node{Name: "x", Signs: saved.Signs}
+		e := root.Render(false)
+		*nd = saved
+		for _, src := range []string{
+			"x equ " + body + "\ndat " + e + ", " + e + "\n",
+			"dat " + e + ", " + e + "\nx equ " + body + "\n",
+			"x equ " + body + "\ni for " + e + "\ndat i, 0\nrof\n",
+			"x equ " + body + "\n;assert " + e + "\ndat 0, 0\n",
+		} {
+			kind := "operand"
+			if strings.Contains(src, " for ") {
+				kind = "for"
+			} else if strings.Contains(src, ";assert") {
+				kind = "assert"
+			}
+			k, err := expectFromSource(kind, src, cfgM(8000, g.ICWS94))
+			if err != nil {
+				continue
+			}
+			if kind == "for" && (k.WantErr || len(k.Fields) > 12) {
+				// negative or large counts are outside the property
+				if !k.WantErr {
+					continue
+				}
+			}
+			if kind == "for" && !k.WantErr {
+				// a negative count gives no lines in the reference reader; skip it (outside the property)
+				if v, ok := forCountOf(src); !ok || v < 0 {
+					continue
+				}
+			}
+			if !c07InRange(src) {
+				continue
+			}
+			c.runC07(k)
+			c.Rep.Count("c07:multi-token-equ-substitutions")
+		}
+	}
+}
+
+// forCountOf evaluates the FOR count of a generated source with the token evaluator.
+func forCountOf(src string) (int64, bool) {
+	equ := ""
+	for _, l := range strings.Split(src, "\n") {
+		if strings.HasPrefix(l, "x equ ") {
+			equ = l[6:]
+		}
+		if strings.HasPrefix(l, "i for ") {
+			et, err1 := ref.Tokenize(equ)
+			ft, err2 := ref.Tokenize(l[6:])
+			if err1 != nil || err2 != nil {
+				return 0, false
+			}
+			var toks []string
+			for _, t := range ft {
+				if t == "x" {
+					toks = append(toks, et...)
+				} else {
+					toks = append(toks, t)
+				}
+			}
+			v, err := ref.EvalTokens(toks, nil)
+			if err != nil || !v.IsInt64() {
+				return 0, false
+			}
+			return v.Int64(), true
+		}
+	}
+	return 0, false
+}
+
+// c07InRange: every value the source denotes stays within 32 bits (checked
+// with the token evaluator on the substituted text).
+func c07InRange(src string) bool {
+	equ := ""
+	for _, l := range strings.Split(src, "\n") {
+		if strings.HasPrefix(l, "x equ ") {
+			equ = l[6:]
+		}
+	}
+	for _, l := range strings.Split(src, "\n") {
+		var exprs []string
+		switch {
+		case strings.HasPrefix(l, "dat "):
+			exprs = strings.SplitN(l[4:], ",", 2)
+		case strings.HasPrefix(l, "i for "):
+			exprs = []string{l[6:]}
+		case strings.HasPrefix(l, ";assert "):
+			exprs = []string{l[8:]}
+		}
+		for _, e := range exprs {
+			et, _ := ref.Tokenize(equ)
+			ft, err := ref.Tokenize(e)
+			if err != nil {
+				return false
+			}
+			var toks []string
+			for _, t := range ft {
+				if t == "x" {
+					toks = append(toks, et...)
+				} else {
+					toks = append(toks, t)
+				}
+			}
+			v, err := ref.EvalTokens(toks, nil)
+			if err == nil && !ref.Fits32(v) {
+				return false
+			}
+		}
+	}
+	return true
+}
+
 // withSigns enumerates sign runs from opts on every operand of root listed in
 // ops (full product) and calls f.
 func withSigns(ops []*Node, opts []string, f func()) {
@@ -276,6 +404,8 @@ func (c *Ctx) RunC07(tier string) {
 		}
 		// unsigned tree: wraps, spacing, other contexts, small cores
 		withWraps(ops, 2, func() { c.operandCase(root, true, bigM, "") })
+		c.equSubtrees(root)
+		withSignDeviations(ops[1:], []string{"-"}, 1, func() { c.equSubtrees(root) })
 		for _, M := range small {
 			c.operandCase(root, false, M, "")
 		}
@@ -297,9 +427,10 @@ func (c *Ctx) RunC07(tier string) {
 		withSignDeviations(ops[1:], signsDev, dev3, func() {
 			c.operandCase(root, false, bigM, "")
 		})
+		c.equSubtrees(root)
 		last = root.Render(false)
 	})
-	rep.Bound += fmt.Sprintf("; 3 operators: all 5 shapes x all operators x literals {1,2,3} x <=%d operands with a sign run from %v", dev3, signsDev)
+	rep.Bound += fmt.Sprintf("; every inner operator node of the 2- and 3-operator trees moved into a multi-token EQU (textual substitution) in the operand, FOR-count and ;assert contexts; 3 operators: all 5 shapes x all operators x literals {1,2,3} x <=%d operands with a sign run from %v", dev3, signsDev)
 
 	if thorough {
 		Shapes(4, []int64{2, 3}, func(root *Node) {
